@@ -11,6 +11,7 @@ package main
 // nothing else, and no test of the suite probes the exact boundary.
 
 import (
+	"go/constant"
 	"fmt"
 	"go/token"
 	"os"
@@ -200,8 +201,8 @@ func (c *Ctx) boundaryRuleSets(key string, fns []*ssa.Function, specs []boundary
 func linearB(v ssa.Value, depth int) linform {
 	switch x := v.(type) {
 	case *ssa.Const:
-		if x.Value != nil {
-			return linform{atoms: map[string]int{}, k: x.Int64(), ok: true}
+		if x.Value != nil && x.Value.Kind() == constant.Int {
+			return linform{atoms: map[string]int{}, k: constInt64(x), ok: true}
 		}
 	case *ssa.BinOp:
 		if depth < 10 && (x.Op == token.ADD || x.Op == token.SUB) {
